@@ -310,13 +310,16 @@ func newSessions() *sessions { return &sessions{data: make(map[*Session]struct{}
 
 func (s *sessions) add(session *Session) {
 	s.sessionMu.Lock()
-	if s.data != nil {
+	closed := s.data == nil
+	if !closed {
 		s.data[session] = struct{}{}
-	} else {
+	}
+	s.sessionMu.Unlock()
+	if closed {
+		// not under sessionMu: Session.Close calls back into removeShutdownSession, which takes it.
 		session.logger.warnf("listener is closed, session %s will not be add", session.name)
 		session.Close()
 	}
-	s.sessionMu.Unlock()
 }
 
 func (s *sessions) removeShutdownSession() {
